@@ -11,10 +11,12 @@ NAMES = ("p0", "p1")
 
 class DSim:
     def __init__(self, expected=(None, None), can_dilate=(("ged",), ("ged",)), half=False, app=True, max_links=4,
-                 listen_late=False, stoppable=False, ping_interval=30.0, both_write=False, sides=("aa" * 8, "bb" * 8), peer_inert=False):
+                 listen_late=False, stoppable=False, ping_interval=30.0, both_write=False, sides=("aa" * 8, "bb" * 8), peer_inert=False, throttle=False):
         self.w = DWorld(sides=sides, expected=expected, can_dilate=can_dilate, ping_interval=ping_interval)
         self.w.__enter__()
         self.w.inert = peer_inert
+        self.w.net.throttle = throttle
+        self.throttle = throttle
         self.half, self.app, self.max_links, self.stoppable, self.both_write = half, app, max_links, stoppable, both_write
         self.peer_inert = peer_inert     # an old peer without dilation support: never starts, never answers
         self.listen_late = listen_late
@@ -78,6 +80,10 @@ class DSim:
         for t in w.net.closing:
             if ("lose", t.link) not in acts:
                 acts.append(("lose", t.link))
+        for (a, b) in w.net.links:
+            for t in (a, b):
+                if t.prod_paused and t.producer is not None and not t.lost:
+                    acts.append(("drain", t.link, t.end))
         dcs = w.reactor.getDelayedCalls()
         if any(dc.getTime() <= w.reactor.seconds() for dc in dcs):
             acts.append(("turn",))
@@ -149,6 +155,11 @@ class DSim:
                             w.deliver_data(t, max(1, len(t.buf[0]) // 2))
                         else:
                             w.deliver_data(t)
+        elif k == "drain":
+            for (a, b) in w.net.links:
+                for t in (a, b):
+                    if t.link == act[1] and t.end == act[2]:
+                        t.drain()
         elif k == "lose":
             self.lost_count += 1
             w.lose(act[1])
@@ -256,6 +267,8 @@ class DSim:
                 self.do(pick)
                 out.append(pick)
         net = ["start", "msg", "tcp", "data", "turn"]
+        if self.throttle:
+            return self.canonical_throttled(run, out, net)
         run(net)
         if self.app:
             for step in (("connect", "p0"), ("listen", "p0"), ("write", "p0")):
@@ -277,6 +290,40 @@ class DSim:
                 run(net)
         return out
 
+
+def _canonical_throttled(self, run, out, net):
+    """back-pressure variant: the send buffer fills after every write; two losses, the second one while a re-send
+    of queued records is interrupted by back-pressure"""
+    netd = net + ["drain"]
+
+    def step(a):
+        if a in self.enabled():
+            self.do(a)
+            out.append(a)
+            return True
+        return False
+    run(netd)
+    for a in (("connect", "p0"), ("listen", "p0")):
+        step(a)
+        run(netd)
+    step(("write", "p0"))
+    run(netd)
+    for rnd in range(2):
+        sel = self.w.selected(0)
+        if sel:
+            step(("lose", sel[0][0].link))
+        if rnd == 0:
+            # queued while disconnected: a write and an OPEN
+            step(("write", "p0"))
+            step(("connect", "p1"))
+        run(net)            # re-converge, but nobody drains: the re-send stops after its first record
+    run(netd)
+    step(("close", "p0"))
+    run(netd)
+    return out
+
+
+DSim.canonical_throttled = _canonical_throttled
 
 _canon = {}
 
